@@ -380,3 +380,559 @@ theorem editKids_insert : ∀ (ks : List Schema) (ds ts : List Data), conformsBo
     · simp [ho]
 
 end YangVerif.Data
+
+namespace YangVerif.Data
+
+/-! ### update -/
+
+theorem findRow_setRow_isSome (k k' : Key) (b : List Data) (t : List (Key × List Data)) :
+    (findRow k' (setRow k b t)).isSome = (findRow k' t).isSome := by
+  have h1 := findRow_isSome_iff k' (setRow k b t)
+  have h2 := findRow_isSome_iff k' t
+  rw [keysOf_setRow] at h1
+  cases ha : (findRow k' (setRow k b t)).isSome <;> cases hb : (findRow k' t).isSome <;> simp_all
+
+/-- rows loop in update mode -/
+theorem editRows_update (ks : List Schema)
+    (h2 : ∀ ds ts, conformsBody ks ds = true → conformsBody ks ts = true →
+      editKids .upsert false ks ds ts = .ok (mergeKids ks ds ts)) :
+    ∀ (rows t : List (Key × List Data)), conformsRows ks rows = true → conformsRows ks t = true →
+      editRows .update ks rows t =
+        if rows.all (fun r => (findRow r.1 t).isSome) then .ok (mergeRows ks rows t) else .error .notFound
+  | [], t, _, _ => by simp [editRows, mergeRows]
+  | (k, sb) :: rest, t, hr, ht => by
+    simp only [conformsRows, Bool.and_eq_true] at hr
+    cases hf : findRow k t with
+    | none => simp [editRows, hf]
+    | some tb =>
+      have htb := conformsRows_findRow ks k t tb ht hf
+      simp only [editRows, mergeRows, List.all_cons, hf, h2 sb tb hr.1 htb, Option.isSome_some, Bool.true_and]
+      rw [editRows_update ks h2 rest _ hr.2
+        (conformsRows_setRow ks k _ (conformsBody_mergeKids ks sb tb hr.1 htb) t ht)]
+      simp only [findRow_setRow_isSome]
+
+mutual
+  /-- **update**: the merge when everything addressed exists, otherwise not-found -/
+  theorem edit_update : ∀ (s : Schema) (d t : Data), conforms s d = true → conforms s t = true →
+      edit .update false s d t = if updateOK s d t then .ok (merge s d t) else .error .notFound
+    | .leaf _, .leaf (some v), t, _, _ => by simp [edit, merge, updateOK]
+    | .leaf _, .leaf none, t, _, _ => by simp [edit, merge, updateOK]
+    | .leaf _, .cont _, _, hd, _ => by simp [conforms] at hd
+    | .leaf _, .list _, _, hd, _ => by simp [conforms] at hd
+    | .cont _, .leaf _, _, hd, _ => by simp [conforms] at hd
+    | .cont _, .list _, _, hd, _ => by simp [conforms] at hd
+    | .cont _, .cont none, .leaf _, _, ht => by simp [conforms] at ht
+    | .cont _, .cont none, .list _, _, ht => by simp [conforms] at ht
+    | .cont _, .cont none, .cont _, _, _ => by simp [edit, merge, updateOK]
+    | .cont ks, .cont (some sb), .cont (some tb), hd, ht => by
+      simp only [conforms] at hd ht
+      simp only [edit, merge, updateOK, editKids_update ks sb tb hd ht]
+      by_cases ho : updateOKKids ks sb tb = true <;> simp [ho, Except.map]
+    | .cont ks, .cont (some sb), .cont none, _, _ => by simp [edit, updateOK]
+    | .cont _, .cont (some _), .leaf _, _, ht => by simp [conforms] at ht
+    | .cont _, .cont (some _), .list _, _, ht => by simp [conforms] at ht
+    | .list _ _, .leaf _, _, hd, _ => by simp [conforms] at hd
+    | .list _ _, .cont _, _, hd, _ => by simp [conforms] at hd
+    | .list _ _, .list _, .leaf _, _, ht => by simp [conforms] at ht
+    | .list _ _, .list _, .cont _, _, ht => by simp [conforms] at ht
+    | .list _ ks, .list [], .list trows, _, _ => by simp [edit, merge, mergeRows, updateOK]
+    | .list _ ks, .list (r :: rs), .list [], _, _ => by simp [edit, updateOK]
+    | .list _ ks, .list (r :: rs), .list (t :: ts), hd, ht => by
+      simp only [conforms] at hd ht
+      have := editRows_update ks (fun ds ts h1 h2 => editKids_upsert ks ds ts h1 h2) (r :: rs) (t :: ts) hd ht
+      simp only [edit, merge, updateOK, this]
+      by_cases ho : (r :: rs).all (fun r => (findRow r.1 (t :: ts)).isSome) = true <;> simp [ho, Except.map]
+  theorem editKids_update : ∀ (ks : List Schema) (ds ts : List Data), conformsBody ks ds = true →
+      conformsBody ks ts = true →
+      editKids .update false ks ds ts =
+        if updateOKKids ks ds ts then .ok (mergeKids ks ds ts) else .error .notFound
+    | [], [], [], _, _ => by simp [editKids, mergeKids, updateOKKids]
+    | [], [], _ :: _, _, ht => by simp [conformsBody] at ht
+    | [], _ :: _, _, hd, _ => by simp [conformsBody] at hd
+    | _ :: _, [], _, hd, _ => by simp [conformsBody] at hd
+    | _ :: _, _ :: _, [], _, ht => by simp [conformsBody] at ht
+    | s :: ss, d :: ds, t :: ts, hd, ht => by
+      simp only [conformsBody, Bool.and_eq_true] at hd ht
+      simp only [editKids, mergeKids, updateOKKids, edit_update s d t hd.1 ht.1, editKids_update ss ds ts hd.2 ht.2]
+      by_cases ho : updateOK s d t = true
+      · by_cases hr : updateOKKids ss ds ts = true <;> simp [ho, hr]
+      · simp [ho]
+end
+
+/-! ### frame: what the source does not mention is unchanged -/
+
+/-- a source child that holds nothing leaves the target child as it is -/
+theorem merge_absent : ∀ (s : Schema) (t : Data), merge s (emptyOf s) t = t
+  | .leaf _, t => by simp [emptyOf, merge]
+  | .cont _, t => by simp [emptyOf, merge]
+  | .list _ _, .list r => by simp [emptyOf, merge, mergeRows]
+  | .list _ _, .leaf _ => by simp [emptyOf, merge]
+  | .list _ _, .cont _ => by simp [emptyOf, merge]
+
+theorem findRow_setRow_other (k k' : Key) (b : List Data) (h : k' ≠ k) :
+    ∀ t : List (Key × List Data), findRow k' (setRow k b t) = findRow k' t
+  | [] => rfl
+  | (k0, b0) :: r => by
+    simp only [setRow]
+    by_cases h0 : k0 = k
+    · subst h0
+      have : k0 ≠ k' := fun e => h e.symm
+      simp [findRow, this]
+    · simp only [h0, if_false, findRow]
+      by_cases h1 : k0 = k'
+      · simp [h1]
+      · simp [h1, findRow_setRow_other k k' b h r]
+
+theorem findRow_append_other (k k' : Key) (b : List Data) (h : k' ≠ k) :
+    ∀ t : List (Key × List Data), findRow k' (t ++ [(k, b)]) = findRow k' t
+  | [] => by
+    have : k ≠ k' := fun e => h e.symm
+    simp [findRow, this]
+  | (k0, b0) :: r => by
+    simp only [List.cons_append, findRow]
+    by_cases h1 : k0 = k'
+    · simp [h1]
+    · simp [h1, findRow_append_other k k' b h r]
+
+/-- list entries whose key the source does not mention keep their content -/
+theorem mergeRows_frame (ks : List Schema) (k' : Key) :
+    ∀ (rows t : List (Key × List Data)), k' ∉ keysOf rows → findRow k' (mergeRows ks rows t) = findRow k' t
+  | [], t, _ => by simp [mergeRows]
+  | (k, sb) :: rest, t, h => by
+    simp only [keysOf, List.map_cons, List.mem_cons, not_or] at h
+    simp only [mergeRows]
+    cases hf : findRow k t with
+    | some tb =>
+      simp only
+      rw [mergeRows_frame ks k' rest _ (by simpa [keysOf] using h.2), findRow_setRow_other k k' _ h.1]
+    | none =>
+      simp only
+      rw [mergeRows_frame ks k' rest _ (by simpa [keysOf] using h.2), findRow_append_other k k' _ h.1]
+
+/-! ### list keys stay unique -/
+
+theorem keysOf_mergeRows_nodup (ks : List Schema) :
+    ∀ (rows t : List (Key × List Data)), (keysOf t).Nodup → (keysOf (mergeRows ks rows t)).Nodup
+  | [], t, h => by simpa [mergeRows] using h
+  | (k, sb) :: rest, t, h => by
+    simp only [mergeRows]
+    cases hf : findRow k t with
+    | some tb =>
+      exact keysOf_mergeRows_nodup ks rest _ (by rw [keysOf_setRow]; exact h)
+    | none =>
+      apply keysOf_mergeRows_nodup ks rest _
+      have hk := not_mem_of_findRow_none k t hf
+      simp only [keysOf, List.map_append, List.map_cons, List.map_nil]
+      rw [List.nodup_append]
+      refine ⟨by simpa [keysOf] using h, by simp, ?_⟩
+      intro a ha b hb
+      simp at hb; subst hb
+      intro e; subst e; exact hk (by simpa [keysOf] using ha)
+
+end YangVerif.Data
+
+namespace YangVerif.Data
+
+/-! ### delete -/
+
+theorem findRow_removeRow_self (k : Key) : ∀ (t : List (Key × List Data)), (keysOf t).Nodup →
+    findRow k (removeRow k t) = none
+  | [], _ => rfl
+  | (k', b) :: r, h => by
+    simp only [keysOf, List.map_cons, List.nodup_cons] at h
+    simp only [removeRow]
+    by_cases hk : k' = k
+    · subst hk
+      simp only [if_true]
+      exact findRow_none_of_not_mem k' r (by simpa [keysOf] using h.1)
+    · simp only [hk, if_false, findRow]
+      exact findRow_removeRow_self k r (by simpa [keysOf] using h.2)
+
+theorem findRow_removeRow_other (k k' : Key) (h : k' ≠ k) :
+    ∀ (t : List (Key × List Data)), findRow k' (removeRow k t) = findRow k' t
+  | [] => rfl
+  | (k0, b) :: r => by
+    simp only [removeRow]
+    by_cases h0 : k0 = k
+    · subst h0
+      have : k0 ≠ k' := fun e => h e.symm
+      simp [findRow, this]
+    · simp only [h0, if_false, findRow]
+      by_cases h1 : k0 = k'
+      · simp [h1]
+      · simp [h1, findRow_removeRow_other k k' h r]
+
+theorem keysOf_removeRow_sublist (k : Key) : ∀ (t : List (Key × List Data)),
+    (keysOf (removeRow k t)).Sublist (keysOf t)
+  | [] => by simp [removeRow, keysOf]
+  | (k', b) :: r => by
+    simp only [removeRow]
+    by_cases hk : k' = k
+    · simp [hk, keysOf]
+    · simp only [hk, if_false, keysOf, List.map_cons]
+      exact List.Sublist.cons₂ _ (keysOf_removeRow_sublist k r)
+
+theorem keysOf_removeRow_nodup (k : Key) (t : List (Key × List Data)) (h : (keysOf t).Nodup) :
+    (keysOf (removeRow k t)).Nodup := List.Nodup.sublist (keysOf_removeRow_sublist k t) h
+
+end YangVerif.Data
+
+namespace YangVerif.Data
+
+/-! ### replace = delete, then insert at the parent -/
+
+mutual
+  theorem conforms_emptyOf : ∀ s : Schema, conforms s (emptyOf s) = true
+    | .leaf _ => by simp [emptyOf, conforms]
+    | .cont _ => by simp [emptyOf, conforms]
+    | .list _ _ => by simp [emptyOf, conforms, conformsRows]
+  theorem conformsBody_emptyBody : ∀ ks : List Schema, conformsBody ks (emptyBody ks) = true
+    | [] => by simp [emptyBody, conformsBody]
+    | s :: r => by simp [emptyBody, conformsBody, conforms_emptyOf s, conformsBody_emptyBody r]
+end
+
+theorem uniqueKeys_emptyOf : ∀ s : Schema, uniqueKeys (emptyOf s) = true
+  | .leaf _ => by simp [emptyOf, uniqueKeys]
+  | .cont _ => by simp [emptyOf, uniqueKeys]
+  | .list _ _ => by simp [emptyOf, uniqueKeys, keysOf, uniqueKeysRows]
+
+theorem uniqueKeysBody_emptyBody : ∀ ks : List Schema, uniqueKeysBody (emptyBody ks) = true
+  | [] => by simp [emptyBody, uniqueKeysBody]
+  | s :: r => by simp [emptyBody, uniqueKeysBody, uniqueKeys_emptyOf s, uniqueKeysBody_emptyBody r]
+
+theorem insertOK_emptyTarget (s : Schema) (d : Data) : insertOK s d (emptyOf s) = true := by
+  cases s <;> cases d <;> simp [insertOK, emptyOf]
+
+theorem insertOK_emptySource (s : Schema) (t : Data) : insertOK s (emptyOf s) t = true := by
+  cases s <;> cases t <;> simp [insertOK, emptyOf]
+
+/-- the three aligned lists of a replace: source mentions only child i, target has child i deleted -/
+theorem replace_aligned : ∀ (ks : List Schema) (i : Nat) (s : Schema) (d : Data) (body : List Data),
+    ks[i]? = some s → conforms s d = true → uniqueKeys d = true → conformsBody ks body = true →
+    conformsBody ks ((emptyBody ks).set i d) = true ∧
+    conformsBody ks (body.set i (emptyOf s)) = true ∧
+    uniqueKeysBody ((emptyBody ks).set i d) = true ∧
+    insertOKKids ks ((emptyBody ks).set i d) (body.set i (emptyOf s)) = true ∧
+    mergeKids ks ((emptyBody ks).set i d) (body.set i (emptyOf s)) = body.set i (merge s d (emptyOf s))
+  | [], i, s, d, body, hi, _, _, _ => by simp at hi
+  | s0 :: ss, 0, s, d, [], _, _, _, hb => by simp [conformsBody] at hb
+  | s0 :: ss, 0, s, d, t :: ts, hi, hd, hu, hb => by
+    simp at hi; subst hi
+    simp only [conformsBody, Bool.and_eq_true] at hb
+    have hrest : mergeKids ss (emptyBody ss) ts = ts := by
+      clear hd hu
+      induction ss generalizing ts with
+      | nil => cases ts <;> simp [mergeKids, emptyBody]
+      | cons a as ih =>
+        cases ts with
+        | nil => simp [mergeKids, emptyBody]
+        | cons x xs =>
+          simp only [conformsBody, Bool.and_eq_true] at hb
+          simp [mergeKids, emptyBody, merge_absent, ih xs ⟨hb.1, hb.2.2⟩]
+    have hok : insertOKKids ss (emptyBody ss) ts = true := by
+      clear hd hu hrest
+      induction ss generalizing ts with
+      | nil => cases ts <;> simp [insertOKKids, emptyBody]
+      | cons a as ih =>
+        cases ts with
+        | nil => simp [insertOKKids, emptyBody]
+        | cons x xs =>
+          simp only [conformsBody, Bool.and_eq_true] at hb
+          simp [insertOKKids, emptyBody, insertOK_emptySource, ih xs ⟨hb.1, hb.2.2⟩]
+    simp [emptyBody, conformsBody, hd, conformsBody_emptyBody, conforms_emptyOf, hb.2, uniqueKeysBody, hu,
+      uniqueKeysBody_emptyBody, insertOKKids, insertOK_emptyTarget, hok, mergeKids, hrest]
+  | s0 :: ss, i + 1, s, d, [], _, _, _, hb => by simp [conformsBody] at hb
+  | s0 :: ss, i + 1, s, d, t :: ts, hi, hd, hu, hb => by
+    simp at hi
+    simp only [conformsBody, Bool.and_eq_true] at hb
+    obtain ⟨h1, h2, h3, h4, h5⟩ := replace_aligned ss i s d ts hi hd hu hb.2
+    simp [emptyBody, conformsBody, conforms_emptyOf, hb.1, h1, h2, uniqueKeysBody, uniqueKeys_emptyOf, h3,
+      insertOKKids, insertOK_emptySource, h4, mergeKids, merge_absent, h5]
+
+/-- **replace**: exactly the supplied content (with its defaults) at that location, nothing of the
+    old content, every sibling untouched -/
+theorem replaceChild_exact (ks : List Schema) (i : Nat) (s : Schema) (d : Data) (body : List Data)
+    (hi : ks[i]? = some s) (hd : conforms s d = true) (hu : uniqueKeys d = true)
+    (hb : conformsBody ks body = true) :
+    replaceChild ks i d body = .ok (body.set i (merge s d (emptyOf s))) := by
+  obtain ⟨h1, h2, h3, h4, h5⟩ := replace_aligned ks i s d body hi hd hu hb
+  unfold replaceChild onlyChild deleteChild
+  simp only [hi]
+  rw [editKids_insert ks _ _ h1 h2 h3, h4, h5]
+  simp
+
+end YangVerif.Data
+
+namespace YangVerif.Data
+
+/-! ### unique keys are preserved by the merge, at every depth -/
+
+mutual
+  theorem uniqueKeys_freshOf : ∀ s : Schema, uniqueKeys (freshOf s) = true
+    | .leaf _ => by simp [freshOf, uniqueKeys]
+    | .cont _ => by simp [freshOf, uniqueKeys]
+    | .list _ _ => by simp [freshOf, uniqueKeys, keysOf, uniqueKeysRows]
+  theorem uniqueKeysBody_freshBody : ∀ ks : List Schema, uniqueKeysBody (freshBody ks) = true
+    | [] => by simp [freshBody, uniqueKeysBody]
+    | s :: r => by simp [freshBody, uniqueKeysBody, uniqueKeys_freshOf s, uniqueKeysBody_freshBody r]
+end
+
+theorem uniqueKeysRows_findRow (k : Key) : ∀ (t : List (Key × List Data)) (b : List Data),
+    uniqueKeysRows t = true → findRow k t = some b → uniqueKeysBody b = true
+  | [], _, _, h => by simp [findRow] at h
+  | (k', b') :: r, b, hu, h => by
+    simp only [uniqueKeysRows, Bool.and_eq_true] at hu
+    simp only [findRow] at h
+    by_cases hk : k' = k
+    · simp [hk] at h; subst h; exact hu.1
+    · simp [hk] at h; exact uniqueKeysRows_findRow k r b hu.2 h
+
+theorem uniqueKeysRows_setRow (k : Key) (b : List Data) (hb : uniqueKeysBody b = true) :
+    ∀ (t : List (Key × List Data)), uniqueKeysRows t = true → uniqueKeysRows (setRow k b t) = true
+  | [], _ => by simp [setRow, uniqueKeysRows]
+  | (k', b') :: r, hu => by
+    simp only [uniqueKeysRows, Bool.and_eq_true] at hu
+    simp only [setRow]
+    by_cases hk : k' = k
+    · simp [hk, uniqueKeysRows, hb, hu.2]
+    · simp [hk, uniqueKeysRows, hu.1, uniqueKeysRows_setRow k b hb r hu.2]
+
+theorem uniqueKeysRows_append (k : Key) (b : List Data) (hb : uniqueKeysBody b = true) :
+    ∀ (t : List (Key × List Data)), uniqueKeysRows t = true → uniqueKeysRows (t ++ [(k, b)]) = true
+  | [], _ => by simp [uniqueKeysRows, hb]
+  | (k', b') :: r, hu => by
+    simp only [uniqueKeysRows, Bool.and_eq_true] at hu
+    simp [uniqueKeysRows, hu.1, uniqueKeysRows_append k b hb r hu.2]
+
+theorem uniqueKeysRows_mergeRows (ks : List Schema)
+    (hk : ∀ ds ts, uniqueKeysBody ds = true → uniqueKeysBody ts = true → uniqueKeysBody (mergeKids ks ds ts) = true) :
+    ∀ (rows t : List (Key × List Data)), uniqueKeysRows rows = true → uniqueKeysRows t = true →
+      uniqueKeysRows (mergeRows ks rows t) = true
+  | [], t, _, ht => by simpa [mergeRows] using ht
+  | (k, sb) :: rest, t, hr, ht => by
+    simp only [uniqueKeysRows, Bool.and_eq_true] at hr
+    simp only [mergeRows]
+    cases hf : findRow k t with
+    | some tb =>
+      have htb := uniqueKeysRows_findRow k t tb ht hf
+      exact uniqueKeysRows_mergeRows ks hk rest _ hr.2 (uniqueKeysRows_setRow k _ (hk sb tb hr.1 htb) t ht)
+    | none =>
+      exact uniqueKeysRows_mergeRows ks hk rest _ hr.2
+        (uniqueKeysRows_append k _ (hk sb _ hr.1 (uniqueKeysBody_freshBody ks)) t ht)
+
+mutual
+  theorem uniqueKeys_merge : ∀ (s : Schema) (d t : Data), uniqueKeys d = true → uniqueKeys t = true →
+      uniqueKeys (merge s d t) = true
+    | .leaf _, .leaf (some v), t, _, _ => by simp [merge, uniqueKeys]
+    | .leaf _, .leaf none, t, _, ht => by simpa [merge] using ht
+    | .leaf _, .cont _, t, _, ht => by simpa [merge] using ht
+    | .leaf _, .list _, t, _, ht => by simpa [merge] using ht
+    | .cont _, .leaf _, t, _, ht => by simpa [merge] using ht
+    | .cont _, .list _, t, _, ht => by simpa [merge] using ht
+    | .cont _, .cont none, t, _, ht => by simpa [merge] using ht
+    | .cont ks, .cont (some sb), .cont (some tb), hd, ht => by
+      simp only [uniqueKeys] at hd ht
+      simp [merge, uniqueKeys, uniqueKeysBody_mergeKids ks sb tb hd ht]
+    | .cont ks, .cont (some sb), .cont none, hd, _ => by
+      simp only [uniqueKeys] at hd
+      simp [merge, uniqueKeys, uniqueKeysBody_mergeKids ks sb _ hd (uniqueKeysBody_freshBody ks)]
+    | .cont ks, .cont (some sb), .leaf _, hd, _ => by
+      simp only [uniqueKeys] at hd
+      simp [merge, uniqueKeys, uniqueKeysBody_mergeKids ks sb _ hd (uniqueKeysBody_freshBody ks)]
+    | .cont ks, .cont (some sb), .list _, hd, _ => by
+      simp only [uniqueKeys] at hd
+      simp [merge, uniqueKeys, uniqueKeysBody_mergeKids ks sb _ hd (uniqueKeysBody_freshBody ks)]
+    | .list _ _, .leaf _, t, _, ht => by simpa [merge] using ht
+    | .list _ _, .cont _, t, _, ht => by simpa [merge] using ht
+    | .list _ _, .list _, .leaf _, _, ht => by simpa [merge] using ht
+    | .list _ _, .list _, .cont _, _, ht => by simpa [merge] using ht
+    | .list _ ks, .list srows, .list trows, hd, ht => by
+      simp only [uniqueKeys, Bool.and_eq_true, decide_eq_true_eq] at hd ht
+      simp only [merge, uniqueKeys, Bool.and_eq_true, decide_eq_true_eq]
+      exact ⟨keysOf_mergeRows_nodup ks srows trows ht.1,
+        uniqueKeysRows_mergeRows ks (fun ds ts h1 h2 => uniqueKeysBody_mergeKids ks ds ts h1 h2) srows trows hd.2 ht.2⟩
+  theorem uniqueKeysBody_mergeKids : ∀ (ks : List Schema) (ds ts : List Data), uniqueKeysBody ds = true →
+      uniqueKeysBody ts = true → uniqueKeysBody (mergeKids ks ds ts) = true
+    | [], _, ts, _, ht => by simpa [mergeKids] using ht
+    | _ :: _, [], ts, _, ht => by simpa [mergeKids] using ht
+    | _ :: _, _ :: _, [], _, ht => by simpa [mergeKids] using ht
+    | s :: ss, d :: ds, t :: ts, hd, ht => by
+      simp only [uniqueKeysBody, Bool.and_eq_true] at hd ht
+      simp [mergeKids, uniqueKeysBody, uniqueKeys_merge s d t hd.1 ht.1, uniqueKeysBody_mergeKids ss ds ts hd.2 ht.2]
+end
+
+end YangVerif.Data
+
+namespace YangVerif.Data
+
+/-! ### every operation preserves "conforming, keys unique" -/
+
+theorem conformsBody_set : ∀ (ks : List Schema) (body : List Data) (i : Nat) (s : Schema) (d : Data),
+    ks[i]? = some s → conforms s d = true → conformsBody ks body = true → conformsBody ks (body.set i d) = true
+  | [], _, i, _, _, hi, _, _ => by simp at hi
+  | _ :: _, [], _, _, _, _, _, hb => by simp [conformsBody] at hb
+  | s0 :: ss, t :: ts, 0, s, d, hi, hd, hb => by
+    simp at hi; subst hi
+    simp only [conformsBody, Bool.and_eq_true] at hb
+    simp [conformsBody, hd, hb.2]
+  | s0 :: ss, t :: ts, i + 1, s, d, hi, hd, hb => by
+    simp at hi
+    simp only [conformsBody, Bool.and_eq_true] at hb
+    simp [conformsBody, hb.1, conformsBody_set ss ts i s d hi hd hb.2]
+
+theorem uniqueKeysBody_set : ∀ (body : List Data) (i : Nat) (d : Data),
+    uniqueKeys d = true → uniqueKeysBody body = true → uniqueKeysBody (body.set i d) = true
+  | [], _, _, _, hb => by simpa using hb
+  | t :: ts, 0, d, hd, hb => by
+    simp only [uniqueKeysBody, Bool.and_eq_true] at hb
+    simp [uniqueKeysBody, hd, hb.2]
+  | t :: ts, i + 1, d, hd, hb => by
+    simp only [uniqueKeysBody, Bool.and_eq_true] at hb
+    simp [uniqueKeysBody, hb.1, uniqueKeysBody_set ts i d hd hb.2]
+
+theorem conformsBody_get : ∀ (ks : List Schema) (body : List Data) (i : Nat) (s : Schema) (d : Data),
+    ks[i]? = some s → body[i]? = some d → conformsBody ks body = true → conforms s d = true
+  | [], _, i, _, _, hi, _, _ => by simp at hi
+  | _ :: _, [], _, _, _, _, hd, _ => by simp at hd
+  | s0 :: ss, t :: ts, 0, s, d, hi, hd, hb => by
+    simp at hi hd; subst hi; subst hd
+    simp only [conformsBody, Bool.and_eq_true] at hb; exact hb.1
+  | s0 :: ss, t :: ts, i + 1, s, d, hi, hd, hb => by
+    simp at hi hd
+    simp only [conformsBody, Bool.and_eq_true] at hb
+    exact conformsBody_get ss ts i s d hi hd hb.2
+
+theorem uniqueKeysBody_get : ∀ (body : List Data) (i : Nat) (d : Data),
+    body[i]? = some d → uniqueKeysBody body = true → uniqueKeys d = true
+  | [], _, _, hd, _ => by simp at hd
+  | t :: ts, 0, d, hd, hb => by
+    simp at hd; subst hd
+    simp only [uniqueKeysBody, Bool.and_eq_true] at hb; exact hb.1
+  | t :: ts, i + 1, d, hd, hb => by
+    simp at hd
+    simp only [uniqueKeysBody, Bool.and_eq_true] at hb
+    exact uniqueKeysBody_get ts i d hd hb.2
+
+theorem conformsRows_removeRow (ks : List Schema) (k : Key) : ∀ (t : List (Key × List Data)),
+    conformsRows ks t = true → conformsRows ks (removeRow k t) = true
+  | [], _ => by simp [removeRow, conformsRows]
+  | (k', b) :: r, h => by
+    simp only [conformsRows, Bool.and_eq_true] at h
+    simp only [removeRow]
+    by_cases hk : k' = k
+    · simp [hk, h.2]
+    · simp [hk, conformsRows, h.1, conformsRows_removeRow ks k r h.2]
+
+theorem uniqueKeysRows_removeRow (k : Key) : ∀ (t : List (Key × List Data)),
+    uniqueKeysRows t = true → uniqueKeysRows (removeRow k t) = true
+  | [], _ => by simp [removeRow, uniqueKeysRows]
+  | (k', b) :: r, h => by
+    simp only [uniqueKeysRows, Bool.and_eq_true] at h
+    simp only [removeRow]
+    by_cases hk : k' = k
+    · simp [hk, h.2]
+    · simp [hk, uniqueKeysRows, h.1, uniqueKeysRows_removeRow k r h.2]
+
+/-- the invariant of C18 -/
+def Inv (ks : List Schema) (body : List Data) : Prop :=
+  conformsBody ks body = true ∧ uniqueKeysBody body = true
+
+theorem step_preserves (ks : List Schema) (body : List Data) (op : Op) (hop : op.wf ks = true)
+    (h : Inv ks body) : Inv ks (step ks body op) := by
+  obtain ⟨hc, hu⟩ := h
+  cases op with
+  | upsert doc =>
+    simp only [Op.wf, Bool.and_eq_true] at hop
+    simp only [step, editKids_upsert ks doc body hop.1 hc, okOr]
+    exact ⟨conformsBody_mergeKids ks doc body hop.1 hc, uniqueKeysBody_mergeKids ks doc body hop.2 hu⟩
+  | insert doc =>
+    simp only [Op.wf, Bool.and_eq_true] at hop
+    simp only [step, editKids_insert ks doc body hop.1 hc hop.2]
+    by_cases ho : insertOKKids ks doc body = true
+    · simp only [ho, if_true, okOr]
+      exact ⟨conformsBody_mergeKids ks doc body hop.1 hc, uniqueKeysBody_mergeKids ks doc body hop.2 hu⟩
+    · simp only [ho, Bool.false_eq_true, if_false, okOr]; exact ⟨hc, hu⟩
+  | update doc =>
+    simp only [Op.wf, Bool.and_eq_true] at hop
+    simp only [step, editKids_update ks doc body hop.1 hc]
+    by_cases ho : updateOKKids ks doc body = true
+    · simp only [ho, if_true, okOr]
+      exact ⟨conformsBody_mergeKids ks doc body hop.1 hc, uniqueKeysBody_mergeKids ks doc body hop.2 hu⟩
+    · simp only [ho, Bool.false_eq_true, if_false, okOr]; exact ⟨hc, hu⟩
+  | delChild i =>
+    simp only [step, deleteChild]
+    cases hi : ks[i]? with
+    | none => exact ⟨hc, hu⟩
+    | some s =>
+      exact ⟨conformsBody_set ks body i s _ hi (conforms_emptyOf s) hc,
+        uniqueKeysBody_set body i _ (uniqueKeys_emptyOf s) hu⟩
+  | delRow i k =>
+    simp only [step, deleteRow]
+    cases hd : body[i]? with
+    | none => exact ⟨hc, hu⟩
+    | some d =>
+      cases d with
+      | leaf _ => exact ⟨hc, hu⟩
+      | cont _ => exact ⟨hc, hu⟩
+      | list rows =>
+        have hud := uniqueKeysBody_get body i _ hd hu
+        simp only [uniqueKeys, Bool.and_eq_true, decide_eq_true_eq] at hud
+        have hu' : uniqueKeys (.list (removeRow k rows)) = true := by
+          simp only [uniqueKeys, Bool.and_eq_true, decide_eq_true_eq]
+          exact ⟨keysOf_removeRow_nodup k rows hud.1, uniqueKeysRows_removeRow k rows hud.2⟩
+        refine ⟨?_, uniqueKeysBody_set body i _ hu' hu⟩
+        cases hi : ks[i]? with
+        | none =>
+          -- cannot happen for a conforming body, but the statement does not need it
+          have : body.length ≤ ks.length ∨ True := Or.inr trivial
+          clear this
+          -- body[i]? = some … and ks[i]? = none contradict conformance (equal lengths)
+          exfalso
+          have hlen : ∀ (ks : List Schema) (body : List Data), conformsBody ks body = true → ks.length = body.length := by
+            intro ks
+            induction ks with
+            | nil => intro body hb; cases body <;> simp [conformsBody] at hb ⊢
+            | cons a as ih =>
+              intro body hb
+              cases body with
+              | nil => simp [conformsBody] at hb
+              | cons x xs =>
+                simp only [conformsBody, Bool.and_eq_true] at hb
+                simp [ih xs hb.2]
+          have := hlen ks body hc
+          have h1 : ks.length ≤ i := by simpa using hi
+          have h2 : i < body.length := by
+            apply Classical.byContradiction; intro hn
+            have : body[i]? = none := by simp; omega
+            rw [this] at hd; cases hd
+          omega
+        | some s =>
+          have hcd := conformsBody_get ks body i s _ hi hd hc
+          cases s with
+          | leaf _ => simp [conforms] at hcd
+          | cont _ => simp [conforms] at hcd
+          | list n ks' =>
+            simp only [conforms] at hcd
+            exact conformsBody_set ks body i (.list n ks') _ hi
+              (by simpa [conforms] using conformsRows_removeRow ks' k rows hcd) hc
+  | replace i d =>
+    simp only [Op.wf] at hop
+    cases hi : ks[i]? with
+    | none => simp [hi] at hop
+    | some s =>
+      simp only [hi, Bool.and_eq_true] at hop
+      simp only [step, replaceChild_exact ks i s d body hi hop.1 hop.2 hc, okOr]
+      have hm : conforms s (merge s d (emptyOf s)) = true := conforms_merge s d _ hop.1 (conforms_emptyOf s)
+      have hum : uniqueKeys (merge s d (emptyOf s)) = true := uniqueKeys_merge s d _ hop.2 (uniqueKeys_emptyOf s)
+      exact ⟨conformsBody_set ks body i s _ hi hm hc, uniqueKeysBody_set body i _ hum hu⟩
+
+/-- lifted to every history -/
+theorem history_preserves (ks : List Schema) : ∀ (ops : List Op) (body : List Data),
+    (∀ op ∈ ops, op.wf ks = true) → Inv ks body → Inv ks (ops.foldl (step ks) body)
+  | [], body, _, h => by simpa using h
+  | op :: rest, body, hops, h => by
+    simp only [List.foldl_cons]
+    exact history_preserves ks rest _ (fun o ho => hops o (List.mem_cons_of_mem _ ho))
+      (step_preserves ks body op (hops op (List.mem_cons_self ..)) h)
+
+end YangVerif.Data
